@@ -12,8 +12,8 @@ False on model and implementation alike (kept as `…_stmt`, negation proved on 
 harness replays on the real code, recorded in known-findings.d/C06.txt):
 * `+ - *` beyond 34 significant digits are rounded silently (ints included);
 * an SI literal whose product is not an integer is rejected (the spec truncates), one whose
-  product needs more than 34 digits is rounded, a float literal with an exponent outside
-  ±100000 silently loses its exponent;
+  product needs more than 34 digits is rounded (the silent loss of exponents outside ±100000 was
+  repaired by /repo 1674508 and is now a proved error);
 * an int whose decimal exponent is positive prints in exponent notation and reads back as a float.
 -/
 import CueVerif.Proofs.ArithExact
@@ -161,16 +161,34 @@ theorem C06_bytes_order (a b c : List Nat) :
 /-- Every spelling of the grammar — every base, separator position, fraction, exponent and
 multiplier — is accepted by `compiler.parse` (gate `ParseNum` + `NumInfo.decimal`) with the
 grammar's kind and denotes exactly the spec's value, inside the region where the implementation
-is right (no superfluous leading zero before a multiplier; exponent window; multiplied mantissa an
-integer of at most 34 digits). -/
+is right (no superfluous leading zero before a multiplier; exponent window; multiplied mantissa an integer of at most 34 digits). -/
 theorem C06_literal_partial (l : Lit) (hwf : l.wf = true) (hz : l.siLeadingZero = false)
     (hw : l.inWindow) (hi : l.siIntegral) (hf : l.siFits prec) :
     ∃ n, litValue l.spell = .ok n ∧ n.k = l.kind ∧ toRat n.d = l.denote :=
   NumValLit.literal_litValue l hwf hz hw hi hf
 
+/-- Soundness without the side conditions: whenever a grammar spelling is ACCEPTED its kind and
+value are the spec's — the only region of silently wrong values is a multiplied mantissa of more
+than 34 digits.  (Everything else the implementation gets wrong is a rejection.) -/
+theorem C06_literal_sound (l : Lit) (hwf : l.wf = true) (hf : l.siFits prec) (n : Num)
+    (h : litValue l.spell = .ok n) : n.k = l.kind ∧ toRat n.d = l.denote :=
+  NumValLit.literal_sound l hwf hf n h
+
+/-- Outside the exponent window (written exponent, fraction length or adjusted exponent beyond
+±100000; a `decimal_lit` of more than 100001 digits) a literal is an ERROR, never another value
+(repaired by /repo 1674508; the spec allows the error). -/
+theorem C06_literal_window_error (l : Lit) (hwf : l.wf = true) (hw : ¬ l.inWindow) :
+    readValue l.kind l.spell = .err :=
+  NumValLit.literal_window_error l hwf hw
+
+/-- `1e100001` is rejected (it used to denote 1). -/
+theorem C06_literal_exponent_rejected :
+    litValue (Lit.fExp [49] ⟨false, .none, [49, 48, 48, 48, 48, 49]⟩).spell = .err :=
+  NumValLit.literal_exponent_rejected
+
 /-- the value reader alone (no gate, leading zeros allowed) -/
-theorem C06_literal_value (l : Lit) (hwf : l.wf = true) (hw : l.inWindow) (hi : l.siIntegral)
-    (hf : l.siFits prec) :
+theorem C06_literal_value (l : Lit) (hwf : l.wf = true) (hw : l.inWindow)
+    (hi : l.siIntegral) (hf : l.siFits prec) :
     ∃ n, readValue l.kind l.spell = .ok n ∧ n.k = l.kind ∧ toRat n.d = l.denote :=
   NumValLit.literal_value l hwf hw hi hf
 
@@ -186,8 +204,8 @@ example : (Lit.si [49] (some [53]) ⟨.K, true⟩).wf = true ∧
 /-- The full statement: every grammar spelling is accepted and denotes the spec's value. -/
 def C06_literal_stmt : Prop := NumValLit.literal_stmt
 
-/-- FALSE: `1.3Ki` (spec: 1331) is rejected; `1e100001` denotes 1;
-`12345678901234567890123456789012345678K` is rounded. -/
+/-- FALSE: `1.3Ki` (spec: 1331) is rejected; `12345678901234567890123456789012345678K` is
+rounded. -/
 theorem C06_literal_false : ¬ C06_literal_stmt := NumValLit.literal_false
 theorem C06_literal_false_trunc :
     litValue (Lit.si [49] (some [51]) ⟨.K, true⟩).spell = .err ∧
@@ -198,14 +216,15 @@ theorem C06_literal_false_round :
       = .ok ⟨.int, ⟨12345678901234567890123456789012350000000, 0⟩⟩ ∧
     (Lit.si [49,50,51,52,53,54,55,56,57,48,49,50,51,52,53,54,55,56,57,48,49,50,51,52,53,54,55,56,57,48,49,50,51,52,53,54,55,56] none ⟨.K, false⟩).denote
       = 12345678901234567890123456789012345678000 := NumValLit.literal_false_round
-theorem C06_literal_false_exponent :
-    litValue (Lit.fExp [49] ⟨false, .none, [49, 48, 48, 48, 48, 49]⟩).spell = .ok ⟨.float, ⟨1, 0⟩⟩ ∧
-    (Lit.fExp [49] ⟨false, .none, [49, 48, 48, 48, 48, 49]⟩).denote ≠ 1 := NumValLit.literal_false_exponent
+/-- `0K` denotes 0 (kept working by /repo 726bce5). -/
+theorem C06_literal_bare_zero :
+    litValue (Lit.si [48] none ⟨.K, false⟩).spell = .ok ⟨.int, ⟨0, 0⟩⟩ := NumValLit.literal_bare_zero_ok
 
 /-! ### printing -/
 
 /-- Printing a number as CUE text and reading it back gives the same kind and value (ints with
-exponent 0 — every literal and every int result of up to 34 digits — and all floats). -/
+exponent 0 and at most 100001 digits — every literal and every int result of up to 34 digits —
+and all floats in the exponent window). -/
 theorem C06_print_parse_partial (n : Num) (h : NumValPrint.PrintRegular n) :
     ∃ n', readBack (printNum n) = .ok n' ∧ n'.k = n.k ∧ toRat n'.d = toRat n.d :=
   NumValPrint.print_parse n h
